@@ -333,6 +333,7 @@ mutual
 def PNode.need : PNode → Nat
   | .seq _ _ _ items => items.need + 2
   | .map _ _ _ es => es.need + 2
+  | .anchored _ n => n.need + 1
   | _ => 1
 def PItems.need : PItems → Nat
   | .nil => 1
@@ -1025,8 +1026,8 @@ theorem loadChars_inline (c : Char) (r : Str) (nd : Node) (t : Tree)
   have hp : (some c == some '%') = false := by simp [hpct]
   have hbody : parseDocBody none [⟨0, c :: r⟩] = .ok nd := by
     unfold parseDocBody
-    have : ∃ f, fuelOf [⟨0, c :: r⟩] + (Option.getD (none : Option Str) []).length * 2 = f + 2 :=
-      ⟨(r.length + 1 + 2) * 2 + 6, by simp [fuelOf]⟩
+    have : ∃ f, fuelOf [⟨0, c :: r⟩] + (Option.getD (none : Option Str) []).length * 4 = f + 2 :=
+      ⟨(r.length + 1 + 2) * 4 + 6, by simp [fuelOf]⟩
     obtain ⟨f, hf⟩ := this
     simp only [hf, parseBlock_inline f c r nd hsp htab hhash hbar hgt hamp hdash hkey hinl]
     simp [skipFill]
@@ -1640,7 +1641,7 @@ theorem parseDocs_seq (m : Meta) (x : PNode) (r : PItems) (h : (PItems.cons m x 
     unfold parseDocBody
     have hge := foldl_fuel_ge (PItems.cons m x r).seqLS 0
     have hlen : (PItems.cons m x r).seqLS.length = (PItems.cons m x r).seqLines.length := by simp [PItems.seqLS]
-    obtain ⟨F, hF⟩ : ∃ F, fuelOf (PItems.cons m x r).seqLS + (Option.getD (none : Option Str) []).length * 2 = F + 1 :=
+    obtain ⟨F, hF⟩ : ∃ F, fuelOf (PItems.cons m x r).seqLS + (Option.getD (none : Option Str) []).length * 4 = F + 1 :=
       ⟨fuelOf (PItems.cons m x r).seqLS - 1, by simp [fuelOf]⟩
     have hFge : 2 * (PItems.cons m x r).seqLines.length + 2 ≤ F := by
       simp only [fuelOf, Option.getD_none, List.length_nil, Nat.zero_mul, Nat.add_zero] at hF
